@@ -142,7 +142,9 @@ func derefPtr(t reflect.Type, v reflect.Value) (reflect.Type, reflect.Value, ref
 	for {
 		if isPtr(t) {
 			t = t.Elem()
-			v = v.Elem()
+			if v.IsValid() {
+				v = v.Elem()
+			}
 			continue
 		}
 		break
